@@ -523,6 +523,56 @@ OBLIGATIONS.append(k2("once.wrapper", _k2h("react::react_commands", "once_reacto
 # check inconclusive on the unchanged tree; their subject moves to "outside the claim" in DESIGN.md section 4):
 #  K1 autodespawn.refcount / entreactors.* / mode.prepare / revoketoken.unique_entities: superseded by the case-split K2
 
+# ---- registration kernels (C01 / C08 / C15: one entry per registration, right kind and type, nothing else) ----
+_REGF = {"broadcast": "ReactCache::register_broadcast_reactor", "resource": "ReactCache::register_resource_mutation_reactor",
+         "any_event": "ReactCache::register_any_entity_event_reactor"}
+for (nm, kind, bounds, tiers) in [
+    ("rc_register_broadcast_2_1", "broadcast", "key A: 2 entries, key B: 1; newcomer id symbolic (may already be registered)", ("quick", "thorough")),
+    ("rc_register_broadcast_new_key", "broadcast", "key A: 1 entry; registration for a type with no key yet", ("thorough",)),
+    ("rc_register_resource_1_1", "resource", "two other keys with 1 entry each; first registration for this resource type", ("thorough",)),
+    ("rc_register_any_event_2_0", "any_event", "key A: 2 entries", ("thorough",)),
+]:
+    OBLIGATIONS.append(k2(nm.replace("rc_", "rc.", 1), f"{RC}{nm}", ["C01", "C15"], [_REGF[kind]], ["src/react/react_cache.rs"], bounds,
+                          "one registration appends exactly one entry at the END of exactly the list of that kind and type (creating it "
+                          "if needed); earlier entries, other keys and every other table are untouched; registrations are not merged",
+                          tiers))
+for (nm, kind, bounds, tiers) in [
+    ("rc_register_insertion_1_1_1", "insertion", "component entry with 1+1+1 reactors", ("thorough",)),
+    ("rc_register_mutation_1_1_1", "mutation", "component entry with 1+1+1 reactors", ("quick", "thorough")),
+    ("rc_register_removal_1_1_0", "removal", "component entry with 1+1+0 reactors", ("thorough",)),
+    ("rc_register_mutation_fresh", "mutation", "no entry for the component yet", ("thorough",)),
+]:
+    OBLIGATIONS.append(k2(nm.replace("rc_", "rc.", 1), f"{RC}{nm}", ["C01", "C15"] + (["C08"] if kind == "removal" else []),
+                          [f"ReactCache::register_{kind}_reactor"], ["src/react/react_cache.rs"], bounds,
+                          "a registration of one component-reaction kind appends one entry to exactly that kind's list under the "
+                          "component's type; the two sibling lists and all other tables are untouched", tiers))
+OBLIGATIONS.append(k2("rc.register_despawn_by_entity", f"{RC}rc_register_despawn_by_entity", ["C01", "C08"],
+                      ["ReactCache::register_despawn_reactor"], ["src/react/react_cache.rs"],
+                      "two watched entities with one reactor each; which one is addressed is symbolic",
+                      "a despawn registration is stored under exactly the watched entity, at the end of its list"))
+OBLIGATIONS.append(k2("once.wrapper", _k2h("react::react_commands", "once_reactor_runs_once_then_vanishes"), ["C15"],
+                      ["ReactCommands::once", "the once_system / once_reactor closures", "RawCallbackSystem::run_with_cleanup",
+                       "RevokeToken::new_from", "ReactWorldExt::react"], ["src/react/react_commands.rs", "src/ecs/callbacks.rs"],
+                      "two-trigger bundle; 0-2 further invocations of the wrapper after the first (symbolic)",
+                      "once() queues the registration and the wrapper's storage; the token names the wrapper's own entity and every "
+                      "trigger of the bundle; the first invocation runs the user's reactor exactly once, despawns exactly its own "
+                      "entity and revokes exactly its own token; every later invocation runs nothing and revokes nothing",
+                      stubs=["ReactCommands::revoke -> record_revoke (counts calls, records the token's id and length; what a revoke "
+                             "removes is decided by the C06 obligations, what the token names by token.every_member)"]))
+
+OBLIGATIONS += [
+    k2("register.empty_bundle", _k2h("react::react_commands", "register_reactors_empty_bundle"), ["C15", "C07"],
+       ["register_reactors", "ReactorMode::prepare", "ReactionTriggerBundle::register_triggers for ()"],
+       ["src/react/react_commands.rs", "src/react/reaction_trigger.rs"], "empty bundle; mode symbolic in {Revokable, Cleanup}; reactor id < 50",
+       "an empty trigger bundle registers nothing and the reactor is handed to the collector at once, exactly once (it is "
+       "dropped without ever running)"),
+    k2("register.two_triggers", _k2h("react::react_commands", "register_reactors_two_triggers"), ["C15", "C07", "C01"],
+       ["register_reactors", "ReactorMode::prepare", "ReactionTriggerBundle::register_triggers for (A, B)", "ReactionTrigger::register"],
+       ["src/react/react_commands.rs", "src/react/reaction_trigger.rs", "src/react/reaction_triggers_impl.rs"],
+       "two broadcast triggers; mode symbolic in {Revokable, Cleanup}",
+       "exactly one deferred registration per trigger is queued; the reactor is not released while they are in flight"),
+]
+
 # ---- the recursive runner, decomposed into steps (C02, C09, C11, C12, C05, C13, C18) ----------------------------------
 # Indirect calls of the runner are restricted per call site (goto-instrument --restrict-function-pointer adds an
 # `ASSERT false` for any other target, so the restriction is checked): the setup pointer to the start_* functions of
@@ -599,6 +649,11 @@ for k, tiers_root, tiers_nested in [(1, ("thorough",), ("quick", "thorough")), (
             extra_stub="syscommand_runner (the ORIGINAL, called from the twin's replay closure) -> record_nested: records "
                        "(command, setup reactor, setup fn, cleanup fn) and logs one mark; the nested call's own behaviour is "
                        "decided by runner.plain_run / runner.busy_* / runner.missing_*"))
+OBLIGATIONS.append(_runner("runner.nested_inline", "runner_nested_inline", ["C09", "C02", "C11"],
+                           "two systems; A's run queues one command for the idle B through Commands and flushes the world (the model's "
+                           "per-command flush, E1); root call",
+                           "B runs in-line, exactly once, before A's run continues; both callbacks are back, counter reset, nothing "
+                           "postponed (two real runner levels through the real SystemCommand::apply)", ("thorough",)))
 OBLIGATIONS.append(_runner("runner.witness", "runner_step_witness", ["C02", "C09", "C11"], "-", "vacuity twin of the runner step family",
                            expect="fail"))
 
